@@ -4,8 +4,8 @@ CONSTANTS
   Bad = {"r3"}
   Shapes = {{"parm", "partvar", "loc", "pkg"}}
   MaxEvict = 1
-  Defects = {}
+  Defects = {"unlock"}
   Lock = TRUE
-INVARIANTS TypeOK Isolated NoForeignSymbols SavedIsNeutral NoCrash ScDiscipline NoLostWakeup
+INVARIANTS Isolated NoCrash
 VIEW View
 CHECK_DEADLOCK FALSE
